@@ -194,6 +194,12 @@ def mutate_state(state, k, j):
         state.move_to(state.center() + 1.0)
         return "move_to:range"
     if t is S.MultiRangeSubsetState:
+        if k % 2 and isinstance(state.pairs, list):
+            # edit the parameter object in place, then hand the same object back through the public setter
+            pairs = state.pairs
+            pairs.append((float(j % 4), float(j % 4) + 1.0))
+            state.pairs = pairs
+            return "inplace+reassign:pairs"
         state.pairs = [(lo - 1.0, hi) for lo, hi in state.pairs] + [(3.0, 4.0)]
         return "setter:pairs"
     if t is S.RoiSubsetState:
@@ -205,6 +211,14 @@ def mutate_state(state, k, j):
             else:
                 state.move_to(c + 1.0)
             return "move_to:roi"
+        if k % 4 == 3 and isinstance(roi, (R.RectangularROI, R.CircularROI)):
+            # edit the region in place, then re-assign the same object through the state's setter
+            if isinstance(roi, R.RectangularROI):
+                roi.update_limits(roi.xmin - 1.0, roi.ymin, roi.xmax + 1.0, roi.ymax + 0.5)
+            else:
+                roi.set_radius(roi.radius + 1.0)
+            state.roi = roi
+            return "inplace+reassign:roi"
         if isinstance(roi, R.RectangularROI):
             roi.xmax = roi.xmax + 1.0
             return "roi-field:xmax"
@@ -221,6 +235,12 @@ def mutate_state(state, k, j):
             roi.vx = [v + 1.0 for v in roi.vx]
             return "roi-field:vx"
         return None
+    if t is S.MaskSubsetState and k % 2:
+        m = state.mask
+        if m.flags.writeable:
+            m.flat[j % m.size] = not m.flat[j % m.size]
+            state.mask = m
+            return "inplace+reassign:mask"
     if t is S.MaskSubsetState:
         m = np.array(state.mask, copy=True)
         m.flat[j % m.size] = not m.flat[j % m.size]
@@ -233,6 +253,11 @@ def mutate_state(state, k, j):
         state.roi = R.CategoricalROI(["x", "z"] if j % 2 else ["y"])
         return "setter:roi(categorical)"
     if t is S.CategorySubsetState:
+        if k % 2 and isinstance(state.categories, np.ndarray) and state.categories.size and state.categories.flags.writeable:
+            c = state.categories
+            c[0] = (int(c[0]) + 1) % 3
+            state.categories = c
+            return "inplace+reassign:categories"
         state.categories = np.array([j % 3])
         return "setter:categories"
     if t is S.FloodFillSubsetState:
